@@ -540,7 +540,7 @@ PIPELINE_CRATES = {"fun", "fun2core", "scc_core_lang", "core2axcut", "axcut", "a
                    "axcut2rv64", "scc_printer"}
 
 
-def ambient_sites(fx, crates):
+def ambient_sites(fx, crates, extra=()):
     for key, f in fx.fns.items():
         if f["crate"] not in crates:
             continue
@@ -552,7 +552,7 @@ def ambient_sites(fx, crates):
             if t["k"] != "call":
                 continue
             for c in (t.get("callee") or "", t.get("resolved") or ""):
-                if c.startswith(AMBIENT_PREFIXES):
+                if c.startswith(AMBIENT_PREFIXES + tuple(extra)):
                     yield key, t["sp"], "call to " + c
                     break
             else:
@@ -570,6 +570,43 @@ def rule_ambient(ctx):
         res.inst(key + "@ambient", sp["file"], sp["line"], "violation")
         res.violate(key + "@ambient:" + what.split(" ")[-1], "ambient nondeterminism source: " + what, sp["file"], sp["line"])
         n += 1
+    # the command line and the driver: what is printed for the stages of a compilation (compile, focus, shrink, linearize, codegen,
+    # check) must not depend on the terminal or the environment either; only the commands whose output is laid out for a human reader
+    # (fmt, texify, shell completions) may ask for the terminal
+    from .. import callgraph
+    cg = callgraph.get(ctx)
+    rev = {}
+    for a_, bs_ in cg.edges.items():
+        for b_ in bs_:
+            rev.setdefault(b_.split("::{")[0], set()).add(a_.split("::{")[0])
+    HUMAN = ("::cli::fmt::", "::cli::texify::", "::cli::gen_completions::")
+    n_app = 0
+    for key, sp, what in ambient_sites(ctx.fx, {"scc", "driver"}, extra=("termsize::",)):
+        n_app += 1
+        base = key.split("::{")[0]
+        seen_, work_ = set(), [base]
+        offenders = []
+        while work_:
+            x_ = work_.pop()
+            if x_ in seen_:
+                continue
+            seen_.add(x_)
+            if any(h in x_ for h in HUMAN) and x_.endswith("::exec"):
+                continue        # a command for human readers: whoever dispatches to it does not inherit the dependence
+            callers = {c_ for c_ in rev.get(x_, ()) if c_ in ctx.fx.fns and ctx.fx.fns[c_]["crate"] in ("scc", "driver") and c_ != x_}
+            if "::cli::" in x_ and x_.endswith("::exec") and x_.count("::") > 2:
+                offenders.append(x_)
+            if not callers and "::cli::" not in x_ and not any(h in x_ for h in HUMAN) and x_ != base and ctx.fx.fns[x_].get("vis") == "pub":
+                pass
+            work_.extend(callers)
+        ikey = base + "@ambient"
+        if offenders:
+            res.inst(ikey, sp["file"], sp["line"], "violation")
+            res.violate(ikey + ":" + what.split(" ")[-1], "%s (%s) is reached from %s: what that command prints depends on the terminal or the "
+                        "environment, not only on the program" % (what, base.split("::")[-1], ", ".join(sorted(o.split("::cli::")[-1] for o in offenders))[:160]),
+                        sp["file"], sp["line"])
+        else:
+            res.inst(ikey, sp["file"], sp["line"], "ok", "only reached from commands that lay text out for a reader (fmt, texify, completions)")
     bodies = [f for f in ctx.fx.fns.values() if f["crate"] in PIPELINE_CRATES]
     res.inst("pipeline-bodies-scanned=%d" % len(bodies), None, None, "ok", "call sites and casts of all pipeline bodies scanned")
     # positive control
